@@ -2,13 +2,11 @@
 
 use proptest::prelude::*;
 use serde_json::{json, Value};
-use std::convert::TryFrom;
 use std::time::Duration;
-use varlink_parser::IDL;
 use vl_model::ctx::{hash64, load_replay, ncpu, Acc, Args, Ctx};
 use vl_model::idl::*;
 use vl_model::isolate::{self, Journal, Watch};
-use vl_model::pt::{self, Fail};
+use vl_model::pt::{self};
 
 use crate::c11::build;
 
@@ -38,46 +36,7 @@ pub fn nontrivial(text: &str) -> bool {
     past_header(text) || text.contains('\r') || text.contains('\u{2028}') || text.contains('\u{2029}')
 }
 
-pub fn check_total(text: &str) -> Result<&'static str, Fail> {
-    let res = std::panic::catch_unwind(|| IDL::try_from(text).map(|_| ()));
-    let res = match res {
-        Ok(r) => r,
-        Err(p) => {
-            let msg = pt::panic_text(&p);
-            let class = if msg.contains("unwrap") || msg.contains("None") { "unwrap-on-none" } else { "other" };
-            return Err(Fail::new(format!("parse/panic/{}", class), format!("IDL::try_from panicked: {}", msg)));
-        }
-    };
-    match res {
-        Ok(()) => Ok("accepted"),
-        Err(e) => {
-            let rendered = std::panic::catch_unwind(std::panic::AssertUnwindSafe(|| e.to_string()))
-                .map_err(|p| Fail::new("parse/display-panic", format!("rendering the error panicked: {}", pt::panic_text(&p))))?;
-            match &e {
-                varlink_parser::Error::Parse { line, column } => {
-                    if !text.split('\n').any(|l| l == line) {
-                        return Err(Fail::new(
-                            "parse/line-not-in-input",
-                            format!("reported line {:?} is not a line of the input", line),
-                        ));
-                    }
-                    let n = line.chars().count();
-                    if *column < 1 || *column > n + 1 {
-                        return Err(Fail::new(
-                            "parse/column-out-of-line",
-                            format!("reported column {} is outside the reported line ({} characters): {:?}", column, n, line),
-                        ));
-                    }
-                    if !rendered.contains(line.as_str()) {
-                        return Err(Fail::new("parse/rendering-lacks-line", format!("rendered error {:?} does not show the line {:?}", rendered, line)));
-                    }
-                    Ok("syntax-error")
-                }
-                varlink_parser::Error::Idl(_) => Ok("definition-error"),
-            }
-        }
-    }
-}
+pub use vl_model::oracles::check_total;
 
 fn eol_variants(text: &str) -> Vec<String> {
     // normalise to LF first, then re-encode
@@ -345,6 +304,18 @@ fn child_main(args: &Args) -> ! {
         ctx
     });
     let mut ctx = ctx;
+    if ctx.tier == vl_model::Tier::Thorough && !ctx.failed() {
+        let seeds: Vec<Vec<u8>> = bases.iter().map(|b| b.as_bytes().to_vec()).collect();
+        if let Some(bytes) = vl_model::fuzz::campaign(&mut ctx, "c12_parse", 5_000_000, &seeds, 4096) {
+            let text = String::from_utf8_lossy(&bytes).to_string();
+            match check_total(&text) {
+                Err(f) => {
+                    ctx.violation(&f.key, &f.what, "c12-text", json!({"text": text, "found_by": "libfuzzer"}));
+                }
+                Ok(_) => ctx.inconclusive("libFuzzer reported a crash that the oracle does not reproduce in-process"),
+            }
+        }
+    }
     ctx.exhaustive = Some(false);
     ctx.finish()
 }
